@@ -32,6 +32,21 @@ func init() {
 
 var feStage string
 
+// The source is given a name inside a fresh EMPTY directory: an `import "./**/*.elk"` in a generated input must not
+// walk whatever happens to lie under /tmp (that is slow file system globbing, not a front end hang).
+var feDir string
+
+func feSourceName() string {
+	if feDir == "" {
+		d, err := os.MkdirTemp("", "elkverif-fe-")
+		if err != nil {
+			d = os.TempDir()
+		}
+		feDir = d
+	}
+	return feDir + "/fe.elk"
+}
+
 func execFe(f []string) string {
 	if len(f) == 1 && f[0] == "tokens" {
 		var sb strings.Builder
@@ -80,7 +95,7 @@ func execFe(f []string) string {
 		}
 		if strings.Contains(stages, "c") {
 			feStage = "check"
-			_, diags := checker.CheckSource("/tmp/fe.elk", src, nil, bitfield.BitField16{}, nil)
+			_, diags := checker.CheckSource(feSourceName(), src, nil, bitfield.BitField16{}, nil)
 			chk = strconv.Itoa(len(diags))
 		}
 		return "ok lex=" + lex + " parse=" + prs + " inc=" + inc + " check=" + chk
